@@ -51,7 +51,7 @@ CHECKS = {
             "lexer+parser, AST val and py_val compared with the exact meaning",
             "Exhaustive over the generated families: ~6.6k spellings (boundary dates/times, 63 duration component "
             "subsets x sign x case x 4 value sets, numbers, 1.1k strings over an adversarial alphabet, GUIDs, "
-            "geography, keyword cases, identifiers from <=3 (thorough 4) atoms incl. keyword fragments) x 9 contexts.",
+            "geography, keyword cases, identifiers from <=3 (thorough 4) atoms incl. keyword fragments) x 9 contexts (identifiers: 15, incl. roots of long paths and collection owners).",
             "Trusted: MC_C06 LitGen (cross-checked against Lex.tla), expected_py() exact conversion in "
             "harness/props/c06.py (Fraction->float correctly rounded), 1-2 us tolerance for sub-microsecond parts."),
     "C19": ("DESIGN.md 6/C19",
